@@ -34,6 +34,11 @@ static void pw_exec(hctx* h, void* arg) {
             for (int k = 0; k < cnt; k++) { arr[k].data = b->dense + 4 * k; arr[k].length = 4; }
             vals = arr;
         }
+        /* cases with several batches: statistics are switched off before the first batch and on again before the last one.
+         * Whether a page header carries statistics is decided when the page is finished; the bounds must cover the values
+         * of EVERY batch of the page, also those added while the flag was off. */
+        if (c->nb >= 2 && i == 0) carquet_page_writer_set_statistics(pw, false);
+        if (c->nb >= 2 && i == c->nb - 1) carquet_page_writer_set_statistics(pw, true);
         sts[i] = (int)carquet_page_writer_add_values(pw, vals, b->n, b->has_defs ? b->defs : NULL, NULL);
         free(arr); arr = NULL;
         int k = 0;
